@@ -34,7 +34,19 @@ def repo_fingerprint():
     rc2, diff, _ = sh(['git', '-C', '/repo', 'diff', 'HEAD', '--stat'])
     return out.strip() + ('+dirty:' + hashlib.sha1(diff.encode()).hexdigest()[:10] if diff.strip() else '')
 
-def build_all():
+def repo_tree_fingerprint():
+    """Content fingerprint of /repo's working tree (HEAD + tracked changes + untracked .go files)."""
+    h = hashlib.sha1()
+    for cmd in (['git', '-C', '/repo', 'rev-parse', 'HEAD'], ['git', '-C', '/repo', 'diff', 'HEAD'], ['git', '-C', '/repo', 'status', '--porcelain']):
+        h.update(sh(cmd)[1].encode())
+    rc, out, _ = sh(['git', '-C', '/repo', 'ls-files', '--others', '--exclude-standard'])
+    for f in sorted(out.split()):
+        if f.endswith('.go'):
+            try: h.update(open(os.path.join('/repo', f), 'rb').read())
+            except OSError: pass
+    return h.hexdigest()
+
+def build_all(modules=()):
     """Rebuild harness (from /repo's working tree, hooks on), regenerate Gen/*.lean, rebuild Lean. Returns dict of statuses."""
     os.makedirs(BIN, exist_ok=True)
     os.makedirs(REPLAYS, exist_ok=True)
@@ -47,17 +59,28 @@ def build_all():
             st['harness'] = 'fail'
             st['harness_error'] = (out + err)[-4000:]
         st['harness_s'] = round(time.time() - t0, 1)
-        # extractor (regenerated facts)
+        # extractor (regenerated facts): Gen/Facts.lean is rebuilt from /repo's current source whenever the tree changed
         t0 = time.time()
         ext = os.path.join(ROOT, 'extract')
-        if os.path.isdir(ext):
-            rc, out, err = sh(['go', 'run', '.', '-repo', '/repo', '-out', os.path.join(LEAN, 'MinterModel', 'Gen')], cwd=ext, env=GOENV)
+        gen = os.path.join(LEAN, 'MinterModel', 'Gen')
+        fp = repo_tree_fingerprint()
+        stamp = os.path.join(BIN, 'extract.stamp')
+        fresh = os.path.exists(stamp) and open(stamp).read() == fp and os.path.exists(os.path.join(gen, 'Facts.lean'))
+        if not fresh:
+            rc, out, err = sh(['go', 'build', '-o', os.path.join(BIN, 'extract'), '.'], cwd=ext, env=GOENV)
+            if rc == 0:
+                rc, out, err = sh([os.path.join(BIN, 'extract'), '-repo', '/repo', '-out', gen], env=GOENV)
             if rc != 0:
                 st['extract'] = 'fail'
                 st['extract_error'] = (out + err)[-4000:]
+            else:
+                open(stamp, 'w').write(fp)
         st['extract_s'] = round(time.time() - t0, 1)
+        st['extract_cached'] = fresh
         t0 = time.time()
-        rc, out, err = sh(['lake', 'build'], cwd=LEAN)
+        # the driver (model) and only the proof modules this property needs: a broken obligation of another
+        # property must not raise an alarm here
+        rc, out, err = sh(['lake', 'build', 'driver'] + list(modules), cwd=LEAN)
         if rc != 0:
             st['lean'] = 'fail'
             st['lean_errors'] = [l for l in (out + err).split('\n') if 'error' in l][:40]
@@ -65,11 +88,11 @@ def build_all():
         st['lean_s'] = round(time.time() - t0, 1)
     return st
 
-def lean_audit(theorems):
+def lean_audit(theorems, modules=('MinterProofs',)):
     """#print axioms for every theorem; returns {name: {'ok':bool,'axioms':[...]}}."""
     if not theorems:
         return {}
-    src = 'import MinterProofs\n' + '\n'.join('#print axioms ' + t for t in theorems) + '\n'
+    src = ''.join('import %s\n' % m for m in modules) + '\n'.join('#print axioms ' + t for t in theorems) + '\n'
     with tempfile.NamedTemporaryFile('w', suffix='.lean', dir=LEAN, delete=False) as f:
         f.write(src)
         path = f.name
@@ -165,7 +188,8 @@ def run_check(prop, tier, seed, replay):
         return 2
     P = props.PROPS[prop]
     known = load_known()
-    st = build_all()
+    modules = P.get('modules', [])
+    st = build_all(modules)
     violations = []   # (message, replay_path or None)
     known_hits = []
     notes = []
@@ -179,7 +203,7 @@ def run_check(prop, tier, seed, replay):
     forbidden = grep_forbidden()
     lean_ok = st['lean'] == 'ok'
     if lean_ok:
-        audit = lean_audit(thms)
+        audit = lean_audit(thms, modules or ['MinterProofs'])
     discharged = sum(1 for t in thms if audit.get(t, {}).get('ok'))
     broken = [t for t in thms if not audit.get(t, {}).get('ok')]
     if forbidden:
@@ -221,7 +245,12 @@ def run_check(prop, tier, seed, replay):
                     elif f.startswith('DRIVER-EOF'):
                         violations.append((f[:400], h.get('trace'), True))
         for m in P.get('modes', []):
-            args = [a.replace('{seed}', str(seed)).replace('{tier}', tier).replace('{driver}', DRIVER).replace('{keep}', REPLAYS) for a in m['args']]
+            def subst(a):
+                mm = re.match(r'\{n:(\d+):(\d+)\}', a)
+                if mm:
+                    return mm.group(2) if tier == 'thorough' else mm.group(1)
+                return a.replace('{seed}', str(seed)).replace('{tier}', tier).replace('{driver}', DRIVER).replace('{keep}', REPLAYS)
+            args = [subst(a) for a in m['args']]
             r = run_mode(m['mode'], args)
             camp.append({'mode': m['mode'], 'result': {k: v for k, v in r.items() if k not in ('violations', 'samples')}})
             total_ops += r.get('evaluations', 0)
